@@ -249,8 +249,8 @@ Ltac dsome :=
   end.
 
 
-Ltac fin := solve [ tauto | congruence | lia | intuition (eauto; try congruence; try lia)
-                  | dsome; intuition (eauto; try congruence; try lia) ].
+Ltac fin := solve [ congruence | lia | intuition (eauto; try congruence; try lia)
+                  | progress dsome; intuition (eauto; try congruence; try lia) ].
 
 Ltac inj :=
   repeat match goal with
